@@ -53,6 +53,20 @@ def build_alphabet(darsia):
         S = shared("H1MG", lambda: darsia.MG(depth=1, smoother_iterations=2, maxiter=2))
         return darsia.H1_regularization(IMG_A.copy(), mu=mu, omega=1.0, dim=2, solver=S)
 
+    ARRS = {"A": (0.5 + rng0.random((12, 10)), 0.5 + rng0.random((12, 10))), "B": (0.5 + rng0.random((12, 10)), 0.5 + rng0.random((12, 10)))}
+
+    def h1_mg_arrays(which):
+        # one explicit heterogeneous MG solver, fed with different coefficient arrays of the same shape
+        S = shared("H1MGARR", lambda: darsia.MG(depth=1, smoother_iterations=2, maxiter=2, mass_coeff=COEF_M.copy(), diffusion_coeff=COEF_D.copy(), dim=2))
+        om, mu = ARRS[which]
+        return darsia.H1_regularization(IMG_A.copy(), mu=mu.copy(), omega=om.copy(), dim=2, solver=S)
+
+    def mg_update_arrays(which):
+        G = shared("MGUPD", lambda: darsia.MG(depth=2, smoother_iterations=2, maxiter=1, mass_coeff=COEF_M.copy(), diffusion_coeff=COEF_D.copy(), dim=2))
+        om, mu = ARRS[which]
+        G.update_params(mass_coeff=om.copy(), diffusion_coeff=mu.copy(), dim=2)
+        return G(IMG_A.copy(), RHS_A.copy())
+
     def sb(img, mu, ell=None, explicit=False):
         kw = dict(mu=mu, omega=1.0, ell=ell, dim=2, max_num_iter=3)
         if explicit:
@@ -85,6 +99,7 @@ def build_alphabet(darsia):
             "bregman_direct": ("bregman", "full", "direct", 0),
             "bregman_amg": ("bregman", "pressure", "amg", 0),
             "adaptive_cg_aa": ("bregman_adaptive", "pressure", "cg", 2),
+            "bregman_direct_aa": ("bregman", "pressure", "direct", 2),
         }[kind]
 
         def ctor():
@@ -131,6 +146,12 @@ def build_alphabet(darsia):
         "w_bregman_amg_B": lambda: wass("bregman_amg", 1),
         "w_adaptive_A": lambda: wass("adaptive_cg_aa", 0),
         "w_adaptive_B": lambda: wass("adaptive_cg_aa", 1),
+        "w_bregman_aa_A": lambda: wass("bregman_direct_aa", 0),
+        "w_bregman_aa_B": lambda: wass("bregman_direct_aa", 1),
+        "h1_mgarr_A": lambda: h1_mg_arrays("A"),
+        "h1_mgarr_B": lambda: h1_mg_arrays("B"),
+        "mg_upd_A": lambda: mg_update_arrays("A"),
+        "mg_upd_B": lambda: mg_update_arrays("B"),
     }
     return A
 
@@ -139,7 +160,7 @@ LETTERS = [
     "jac_h1", "jac_h05", "jac_params", "mg_a", "mg_b", "mg_het", "h1_mu1", "h1_mu10", "h1_mu10_omega3", "h1_shapeB", "h1_rgb",
     "h1_explicit_mu10", "h1_explicit_mu1", "h1_mg_mu1", "h1_mg_mu5", "sb_mu05", "sb_mu2_ell1", "sb_shapeB", "sb_explicit", "tvd_chambolle",
     "tvd_het", "aa_seq1", "aa_seq2", "w_newton_A", "w_newton_B", "w_newton_amg_aa_A", "w_newton_amg_aa_B", "w_bregman_A", "w_bregman_B",
-    "w_bregman_amg_A", "w_bregman_amg_B", "w_adaptive_A", "w_adaptive_B",
+    "w_bregman_amg_A", "w_bregman_amg_B", "w_adaptive_A", "w_adaptive_B", "w_bregman_aa_A", "w_bregman_aa_B", "h1_mgarr_A", "h1_mgarr_B", "mg_upd_A", "mg_upd_B",
 ]
 # letters that can share state with each other (same object or same module-level default)
 GROUPS = {
@@ -157,6 +178,9 @@ GROUPS = {
     "w_bregman": ["w_bregman_A", "w_bregman_B"],
     "w_bregman_amg": ["w_bregman_amg_A", "w_bregman_amg_B"],
     "w_adaptive": ["w_adaptive_A", "w_adaptive_B"],
+    "w_bregman_aa": ["w_bregman_aa_A", "w_bregman_aa_B"],
+    "h1_mg_arrays": ["h1_mgarr_A", "h1_mgarr_B"],
+    "mg_update_arrays": ["mg_upd_A", "mg_upd_B"],
 }
 
 
